@@ -29,7 +29,7 @@ META = {
              "selectors, three parameter kinds and a listed set of literals that the real Comparison/Condition.evaluate return exactly the "
              "truth value of the mathematical relation (or an error when the literal cannot be read in the value's type), for every "
              "BooleanExpression tree shape up to 4 leaves / depth 3 (thorough: 5 leaves) that evaluation equals the recursive AND/OR of the "
-             "leaf relations, that comparison lists are conjunctions, and that discrete lookups return the value of the first entry whose "
+             "leaf relations, that one Comparison / Condition object evaluated on two packets in a row (the parameter being of a different kind in each) is right both times, that comparison lists are conjunctions, and that discrete lookups return the value of the first entry whose "
              "criteria all hold.",
     "trusted": "z3 (BV for integers, LRA for reals, bv2int at the int/real boundary); the proxies mirror CPython's int.__op__(float) -> "
                "NotImplemented and float's reflected comparison; every path cross-validated against the unpatched classes",
@@ -173,6 +173,44 @@ class ComparisonH(Harness):
             cls = judge_bool(f"{sp}", got, exc, rel_term(OPS[sp], sel, litv), obl)
         inputs = dict(P.inputs(), op=sp, cal=cal, lit=lit, in_packet=in_packet)
         return result(cls, obl, observe={"result": _r(got) if exc is None else None, "exc": exc, "cls": "ran"}, inputs=inputs)
+
+
+HIST_OPS = ("==", "!=", "<", "gt", "leq", ">=")
+
+
+class HistoryH(Harness):
+    """ONE Comparison (or Condition) object evaluated on two packets in a row, the referenced parameter being of a possibly DIFFERENT kind in
+    each (integer / calibrated float / float): every evaluation must be the mathematical truth for ITS packet (the literal read in the type
+    of the value it is compared to THIS time)."""
+    kind = "history"
+
+    def run(self, ctx):
+        lib = self.lib
+        cfg = choose(ctx, "cfg", len(HIST_OPS) * 2 * 9 * 3 * 2)
+        sp = HIST_OPS[cfg % len(HIST_OPS)]
+        cfg //= len(HIST_OPS)
+        cal = bool(cfg % 2)
+        cfg //= 2
+        k1, k2 = KINDS[cfg % 3], KINDS[(cfg // 3) % 3]
+        cfg //= 9
+        lit = ("5", "0", "-2")[cfg % 3]
+        cfg //= 3
+        what = ("comparison", "condition")[cfg % 2]
+        P = Params(ctx, lib, (k1, k2))
+        if what == "comparison":
+            obj = lib.comparisons.Comparison(lit, "P0", operator=sp, use_calibrated_value=cal)
+        else:
+            obj = lib.comparisons.Condition("P0", sp, right_value=lit, left_use_calibrated_value=cal, right_use_calibrated_value=False)
+        obl, classes, obs = [], [], []
+        for n in (0, 1):
+            pkt = lib.packets.CCSDSPacket(raw_data=b"")
+            pkt["P0"] = P.packet[f"P{n}"]
+            got, exc = outcome(lambda: obj.evaluate(pkt))        # noqa: B023 - evaluated immediately
+            sel = P.selected(n, cal)
+            classes.append(judge_bool(f"evaluation {n + 1} ({P.kinds[n]} value)", got, exc, rel_term(OPS[sp], sel, literal_for(sel[0], lit)), obl))
+            obs.append(_r(got) if exc is None else "exc:" + exc)
+        inputs = dict(P.inputs(), op=sp, cal=cal, lit=lit, what=what)
+        return result("/".join(classes), obl, observe={"results": obs, "cls": "ran"}, inputs=inputs)
 
 
 CONDS = [  # (left index, op, right: ('p', index) | ('v', literal), left_cal, right_cal)
@@ -341,7 +379,7 @@ class Twin(ComparisonH):
 
 def make(job):
     lib = bv.install(64)
-    h = {"comparison": ComparisonH, "tree": TreeH, "lookup": LookupH, "twin": Twin}[job["h"]](job)
+    h = {"comparison": ComparisonH, "history": HistoryH, "tree": TreeH, "lookup": LookupH, "twin": Twin}[job["h"]](job)
     h.lib = lib
     return h
 
@@ -351,6 +389,7 @@ KINDSETS = [("int", "int", "int"), ("int", "float", "cal"), ("cal", "int", "floa
 
 def jobs(tier):
     out = [{"name": "comparison", "h": "comparison", "params": {}, "split": 32, "chunk": 40, "must_reach": ["True", "False", "uncoercible"]}]
+    out.append({"name": "history", "h": "history", "params": {}, "split": 32, "chunk": 40, "must_reach": ["True/False", "False/True"]})
     sh = shapes(4 if tier == "quick" else 5, 3)
     for n, s in enumerate(sh):
         out.append({"name": f"tree-{n}", "h": "tree", "params": {"shape": s, "rot": n, "kindsets": KINDSETS}, "must_reach": [], "split": 8, "chunk": 60})
@@ -412,6 +451,19 @@ def concrete(req):
         with warnings.catch_warnings():
             warnings.simplefilter("ignore")
             return _enc_result(lambda: comp.evaluate(pkt, cur))
+    if req["kind"] == "history":
+        if i["what"] == "comparison":
+            obj = C.Comparison(i["lit"], "P0", operator=i["op"], use_calibrated_value=i["cal"])
+        else:
+            obj = C.Condition("P0", i["op"], right_value=i["lit"], left_use_calibrated_value=i["cal"], right_use_calibrated_value=False)
+        res = []
+        for n in (0, 1):
+            from space_packet_parser import packets
+            p2 = packets.CCSDSPacket(raw_data=b"")
+            p2["P0"] = pkt[f"P{n}"]
+            r = _enc_result(lambda: obj.evaluate(p2))      # noqa: B023
+            res.append(r["result"] if r["exc"] is None else "exc:" + r["exc"])
+        return {"cls": "ran", "results": res}
     if req["kind"] == "tree":
         class _L:
             comparisons = C
@@ -467,6 +519,16 @@ def judge(req, got):
         desc = f"Comparison(P {i['op']} {i['lit']}, calibrated={i['cal']}, in_packet={i['in_packet']}) kind={i['kinds'][0]} value={a}"
         if got["exc"] is not None or got["result"] is not want:
             return "reproduced", f"{desc}: expected {want}, got {got['result']!r} exc={got['exc']}"
+        return "not-reproduced", "agrees"
+    if req["kind"] == "history":
+        bad = []
+        for n in (0, 1):
+            t, a = _sel(i, n, i["cal"])
+            want = PYREL[OPS[i["op"]]](Fraction(a), Fraction(lit(t, i["lit"])))
+            if got["results"][n] is not want:
+                bad.append(f"evaluation {n + 1} on a {i['kinds'][n]} value {a}: expected {want}, got {got['results'][n]!r}")
+        if bad:
+            return "reproduced", f"one {i['what']} object (P0 {i['op']} {i['lit']}, calibrated={i['cal']}) evaluated on two packets in a row: " + "; ".join(bad)
         return "not-reproduced", "agrees"
     if req["kind"] == "tree":
         counter = [i["rot"]]
